@@ -91,6 +91,8 @@ type out struct {
 	lockPaths map[string][][]string
 	initFuncs map[string][]string // package -> init skeleton tokens (flattened)
 	handlerMem [][2]string        // upgrade package, method call inside its handler closure that takes no block context
+	appWiring    map[string][]string // every function of app, app/keepers, app/upgrades/*: skeleton
+	moduleWiring map[string][]string // every function of the root packages x/<module> (module.go, genesis.go, …): skeleton
 }
 
 // collectHandlerMemoryCalls lists, for an upgrade package, every method call inside a function literal of the shape of
@@ -640,7 +642,7 @@ func main() {
 		os.Exit(1)
 	}
 	sort.Slice(pkgs, func(i, j int) bool { return pkgs[i].PkgPath < pkgs[j].PkgPath })
-	o := &out{skel: map[string][]string{}, structs: map[string][][3]string{}, methods: map[string][]string{}, lockOps: map[string][]string{}, lockPaths: map[string][][]string{}, initFuncs: map[string][]string{}}
+	o := &out{skel: map[string][]string{}, structs: map[string][][3]string{}, methods: map[string][]string{}, lockOps: map[string][]string{}, lockPaths: map[string][][]string{}, initFuncs: map[string][]string{}, appWiring: map[string][]string{}, moduleWiring: map[string][]string{}}
 
 	// configuration tables of the app
 	var upgrades [][3][]string // name, added, deleted
@@ -837,6 +839,9 @@ func main() {
 					fn := funcName(p, d)
 					if !isApp {
 						o.skel[fn] = skeleton(p, d)
+						if strings.HasPrefix(r, "x/") && strings.Count(r, "/") == 1 {
+							o.moduleWiring[fn] = o.skel[fn]
+						}
 						if !strings.Contains(r, "client") {
 							nondetOf(p, d, o)
 						}
@@ -861,6 +866,7 @@ func main() {
 						if d.Name.Name == "setAnteHandler" {
 							o.skel[fn] = skeleton(p, d)
 						}
+						o.appWiring[fn] = skeleton(p, d)
 						ast.Inspect(d.Body, func(n ast.Node) bool {
 							ce, ok := n.(*ast.CallExpr)
 							if !ok {
@@ -993,6 +999,26 @@ func main() {
 		fmt.Fprintf(&b, "(%s, %s)", leanStr(c[0]), leanStr(c[1]))
 	}
 	b.WriteString("]\n\n")
+	for _, tb := range []struct {
+		name, doc string
+		m         map[string][]string
+	}{{"appWiring", "every function of the packages app, app/keepers and app/upgrades/*: name, skeleton (statements and calls in source order)", o.appWiring},
+		{"moduleWiring", "every function of the root packages x/<module> (module.go, genesis.go and whatever else is there): name, skeleton", o.moduleWiring}} {
+		var names []string
+		for n := range tb.m {
+			names = append(names, n)
+		}
+		sort.Strings(names)
+		fmt.Fprintf(&b, "/-- %s -/\ndef %s : List (String × List String) := [\n", tb.doc, tb.name)
+		for i, n := range names {
+			sep := ","
+			if i == len(names)-1 {
+				sep = ""
+			}
+			fmt.Fprintf(&b, "  (%s, %s)%s\n", leanStr(n), leanList(tb.m[n]), sep)
+		}
+		b.WriteString("]\n\n")
+	}
 	fmt.Fprintf(&b, "/-- arguments of sdk.NewKVStoreKeys in app/keepers/keys.go -/\ndef mountedStores : List String := %s\n\n", leanList(mounted))
 	b.WriteString("/-- app.maccPerms -/\ndef maccPerms : List (String × List String) := [\n")
 	sort.Slice(macc, func(i, j int) bool { return macc[i][0][0] < macc[j][0][0] })
